@@ -32,7 +32,8 @@ Theorem nonce_bump_invalidates_reachable c now ctis irss idents issuers ks i d t
   call_is_claim_valid c w' i d t scheme sig data = Fail.
 Proof.
   intros Hb w w' Hok Hv. unfold call_is_claim_valid in *.
-  destruct (the_issuer w i) as [s|] eqn:Es; cbn [bind] in Hv; [|discriminate].
+  destruct (the_issuer w i) as [s|] eqn:Es;
+    [| cbn [step] in Hok; unfold upd in Hok; rewrite Es in Hok; cbn [bind snd] in Hok; discriminate].
   destruct (reachable_issuer c now ctis irss idents issuers ks i s Es) as [_ Hn].
   subst w'. cbn [step] in *. unfold upd in *. rewrite Es in *. cbn [bind] in *.
   destruct (invalidate_claim_signatures s d t) as [s'|] eqn:Ei; cbn [fst snd] in *; [|discriminate].
